@@ -26,6 +26,27 @@ func reasmSeqEngine(prop string, tilt int) *core.Engine[RPlan] {
 	}
 }
 
+func reasmConcEngine() *core.Engine[CPlan] {
+	return &core.Engine[CPlan]{
+		Property:        "C11",
+		Name:            "reasm-conc",
+		Gen:             GenCPlan,
+		Valid:           func(p *CPlan) bool { return p.Valid() },
+		Exec:            ExecCPlan,
+		ProbeNames:      cProbeNames,
+		FaultNames:      cFaultNames,
+		RaceIsViolation: true,
+		NontrivialRule: "a run is non-trivial when >= 2 tasks have operations, at least one context switch happened while another task was inside a " +
+			"Reassembler call (at an internal yield point) and at least one message was delivered; distinct = distinct hash of the total-order history",
+		Components: map[string][]string{
+			"real": {"libaudit.Reassembler with -tags verif yield hooks between Put/CleanUp/Clear/callback", "auparse.Parse (Push)"},
+			"stub": {"Stream (recording, may re-enter PushMessage/Maintain/Close)", "goroutine scheduling (seeded scheduler, one task released at a time)",
+				"clock (synctest, scheduler-owned timers)", "Maintain ticker task (models cmd/auparse)"},
+		},
+		Assumptions: []string{"interleavings are explored at yield-point granularity; finer races are left to the race detector running with the scheduler's hand-offs hidden"},
+	}
+}
+
 // Dispatch runs the worker for the property named in the configuration.
 func Dispatch(t *testing.T, cfg core.Config) {
 	switch cfg.Property {
@@ -39,6 +60,8 @@ func Dispatch(t *testing.T, cfg core.Config) {
 		core.RunWorker(t, cfg, reasmSeqEngine("C10", 10))
 	case "C19":
 		core.RunWorker(t, cfg, reasmSeqEngine("C19", 19))
+	case "C11":
+		core.RunWorker(t, cfg, reasmConcEngine())
 	default:
 		fmt.Fprintf(os.Stderr, "SIM-FATAL unknown property %q\n", cfg.Property)
 		os.Exit(core.ExitInternal)
